@@ -37,6 +37,7 @@ if TYPE_CHECKING:
     from .loader import UpToDate
     from .static_analysis import Segments
     from .static_analysis import TemplateAnalysis
+    from .token import Token
 
 
 __all__ = (
@@ -176,6 +177,10 @@ class BoundTemplate:
                 except LiquidError as err:
                     # Raise or warn according to the current mode.
                     self.env.error(err, token=node.token)
+                except Exception as err:  # noqa: BLE001
+                    # Like `Environment.from_string`, don't let unexpected
+                    # exceptions from tags, filters or drops reach the caller.
+                    self.env.error(_unexpected_render_error(err, node.token))
 
     async def render_with_context_async(
         self,
@@ -211,6 +216,10 @@ class BoundTemplate:
                 except LiquidError as err:
                     # Raise or warn according to the current mode.
                     self.env.error(err, token=node.token)
+                except Exception as err:  # noqa: BLE001
+                    # Like `Environment.from_string`, don't let unexpected
+                    # exceptions from tags, filters or drops reach the caller.
+                    self.env.error(_unexpected_render_error(err, node.token))
 
     def is_up_to_date(self) -> bool:
         """`False` if the template has bee modified, `True` otherwise."""
@@ -576,6 +585,14 @@ class BoundTemplate:
             visit(child)
 
         return nodes
+
+
+def _unexpected_render_error(err: Exception, token: Token) -> LiquidError:
+    error = LiquidError(
+        f"unexpected liquid rendering error: {type(err).__name__}", token=token
+    )
+    error.__cause__ = err
+    return error
 
 
 class AwareBoundTemplate(BoundTemplate):
